@@ -73,6 +73,8 @@ Definition chk_flat_circle (a : circ_arc) (vs : list pt) (tol K slack : Q) : boo
   | [] => false
   end.
 
+Definition bitz (b : bool) (k : Z) : Z := if b then k else 0%Z.
+
 Fixpoint Qmaxl (l : list Q) : Q := match l with [] => 0 | x :: l' => Qmax x (Qmaxl l') end.
 
 (** diagnostics: 10^6 (max |dist - r| / tol)^2 is not computable without roots; report instead
@@ -86,8 +88,7 @@ Definition judge_circ (a : circ_arc) (tol K slack : Q) (ok : bool) (vs : list pt
     let ctr := negb (in_annulus c (ca_start a) (r - slack) (r + slack) && in_annulus c (ca_end a) (r - slack) (r + slack)) in
     let vert := negb (forallb (fun v => in_annulus c v (r - slack) (r + tol + slack)) vs) in
     let chords := negb (chk_chords c (ca_sweep a) (r - K * tol) (r + tol + slack) vs) in
-    [ (bit_ ends 2 + bit_ vert 4 + bit_ chords 8 + bit_ ctr 128 + 32)%Z; Z.of_nat (length vs - 1); 0%Z; 0%Z; 0%Z ]
-where "'bit_' b k" := (if b then k else 0%Z) (at level 0, b at level 0, k at level 0).
+    [ (bitz ends 2 + bitz vert 4 + bitz chords 8 + bitz ctr 128 + 32)%Z; Z.of_nat (length vs - 1); 0%Z; 0%Z; 0%Z ].
 
 (** ** Arc -> cubic Beziers: implicit conic of the ellipse with rational centre, radii and rotation
     (cos, sin) (Pythagorean), evaluated on the Bernstein coefficients of each emitted cubic. *)
@@ -131,8 +132,8 @@ Fixpoint chk_conic_sub (e : ellipse) (p0 p1 p2 p3 : pt) (eps : Q) (n : nat) (k :
   | S k' =>
       let s := inject_Z (Z.of_nat k') / inject_Z (Z.of_nat n) in
       let u := inject_Z (Z.of_nat k' + 1) / inject_Z (Z.of_nat n) in
-      let '(q0, q1, q2, q3) := cube_sub p0 p1 p2 p3 s u in
-      within (1 - eps) (1 + eps) (conic6 e (pred q0) (pred q1) (pred q2) (pred q3)) && chk_conic_sub e p0 p1 p2 p3 eps n k'
+      let '(q0, q1, q2, q3) := cube_sub_f p0 p1 p2 p3 s u in
+      within (1 - eps) (1 + eps) (conic6 e q0 q1 q2 q3) && chk_conic_sub e p0 p1 p2 p3 eps n k'
   end.
 
 Definition chk_arc_cubic (e : ellipse) (eps : Q) (n : nat) (cub : list pt) : bool :=
